@@ -55,6 +55,8 @@ class C15(E1Check):
         self.faults = wide_fault_ops(A, tier)
         self.mode_probes = [("mode_probe", mode, cls) for mode in ("r", "a", "a+", "w", "w+", "r+") for cls in CLASSES]
         self.probe_set = set(P) | set(Wp) | set(self.faults) | set(self.mode_probes)
+        # what is a probe must not depend on which configuration a worker happens to see first (replay fidelity)
+        self.probe_set -= set(self._base({"storage": "csv"}))
 
     def rule(self):
         return (
@@ -88,7 +90,7 @@ class C15(E1Check):
                      ("count", ("cmp", "fields", ("v",), ">=", 3), None), ("get", ("cmp", "tags", ("i",), "==", "0"), None),
                      ("getter", "get_timestamps", "big"), ("remove", ("cmp", "tags", ("i",), "==", "no-such"), None, "db"),
                      ("update", ("cmp", "tags", ("i",), "==", "7"), W.mkspec(unset_tags="nokey"), None, "db")]
-            self._ladder_probes = set(reads[1:])
+            self._lp[cfg["name"]] = set(reads[1:])
             return reads
         edges = [("read_storm",), ("count", ("cmp", "fields", ("v",), ">=", 3), None), ("getter", "get_timestamps", "big")]
         probes = [p for p in self.write_probes] + self.mode_probes + [("getter", "all", False), ("getter", "iter"), ("len",), ("reindex",),
@@ -97,7 +99,7 @@ class C15(E1Check):
                   ("update", ("cmp", "tags", ("i",), "==", "no-such"), W.mkspec(tags={"a": "b"}), None, "db"),
                   ("update", ("cmp", "tags", ("i",), "==", "7"), W.mkspec(unset_tags="nokey"), None, "db")]
         have = set(edges)
-        self._ladder_probes = {p for p in probes if p not in have}
+        self._lp[cfg["name"]] = {p for p in probes if p not in have}
         return edges + [p for p in probes if p not in have]
 
     def bounds(self):
@@ -106,15 +108,17 @@ class C15(E1Check):
     def budget(self):
         return 600 if self.tier == "quick" else 1200
 
-    def op_list(self, cfg):
+    def _base(self, cfg):
         base = std_ops(self.alpha, cfg, self.tier)
         base.append(("insert", "P1", None, True, "db"))  # compact key prefixes: a needless rewrite would change these bytes
-        have = set(base)
-        self.probe_set -= have
+        return base
+
+    def op_list(self, cfg):
+        base = self._base(cfg)
         return base + [p for p in self.read_probes + self.write_probes + self.faults + self.mode_probes if p in self.probe_set]
 
-    def is_probe(self, op):
-        return op in self.probe_set or op in getattr(self, "_ladder_probes", ())
+    def is_std_probe(self, op):
+        return op in self.probe_set
 
     def enabled(self, op, contents, cfg, history):
         if not super().enabled(op, contents, cfg, history):
